@@ -86,3 +86,7 @@ macro_rules! retry_after_hint {
 retry_after_hint!(c14_retry_after_hint_le3, 3, 10);
 retry_after_hint!(c14_retry_after_hint_le6, 6, 10);
 // @end
+
+// NOT REGISTERED (measured in the follow-up session: N = 20 / unwind 24, which would reach the 20-digit
+// u64-overflow region, was still in the SAT solver after 800 s at 6.8 GB; not validated, so not claimed):
+// retry_after_hint!(c14_retry_after_hint_le20, 20, 24);
